@@ -77,6 +77,10 @@ FAST_CLASSIFIERS = ("tsf", "rise", "boss", "iboss", "cboss", "itde", "cec")
 
 
 def build_classifier(spec):
+    if spec.get("_vsp"):
+        from harness.pools import via_set_params
+
+        return via_set_params(build_classifier({k: v for k, v in spec.items() if k != "_vsp"}))
     k = spec["kind"]
     rs = spec.get("random_state", 0)
     nj = spec.get("n_jobs", 1)
@@ -141,6 +145,10 @@ PANEL_TRANSFORMERS = ("pad", "trunc", "interp", "tab", "cc", "paa", "sax", "iseg
 
 
 def build_panel_transformer(spec):
+    if spec.get("_vsp"):
+        from harness.pools import via_set_params
+
+        return via_set_params(build_panel_transformer({k: v for k, v in spec.items() if k != "_vsp"}))
     k = spec["kind"]
     rs = spec.get("random_state", 0)
     if k == "pad":
@@ -238,6 +246,10 @@ SERIES_TRANSFORMERS = ("acf", "pacf", "cos", "imputer", "hampel", "boxcox", "log
 
 
 def build_series_transformer(spec):
+    if spec.get("_vsp"):
+        from harness.pools import via_set_params
+
+        return via_set_params(build_series_transformer({k: v for k, v in spec.items() if k != "_vsp"}))
     from harness import pools
 
     k = spec["kind"]
